@@ -215,10 +215,19 @@ def gen_script(rng, n_arr):
     return script
 
 
+def normalise_script(script):
+    """The harness executes status / monitor / release actions of an arrival at once and queues the requests
+    (pause / suspend / abort / stop / halt) with call_soon; the model plays the list in order.  Put the immediate
+    actions first so that both orders coincide."""
+    imm = ("monitor", "status", "release")
+    return {k: [a for a in v if a["a"] in imm] + [a for a in v if a["a"] not in imm] for k, v in script.items()}
+
+
 def gen(rng):
     if rng.random() < 0.25:
         sc = E.gen_scenario(rng, dense=True)
         sc["record_interruptions"] = rng.random() < 0.8
+        sc["script"] = normalise_script(sc["script"])
         return sc
     devs = {
         "m1": {"kind": "motor", "modes": {"set": [rng.choice(["done", "pending"]) for _ in range(3)]} if rng.random() < 0.5 else {}, "pausable": rng.random() < 0.3},
@@ -238,7 +247,7 @@ def gen(rng):
         "max_arrivals": 300,
     }
     base = E.run_scenario(E.number(copy.deepcopy(sc)))
-    sc["script"] = gen_script(rng, len(base["arrivals"]))
+    sc["script"] = normalise_script(gen_script(rng, len(base["arrivals"])))
     return E.number(sc)
 
 
